@@ -903,6 +903,10 @@ Print Assumptions Blocks_total_partial_open_new_blocks_step_advances.
    a scan_link_title match, at least 2 bytes) and strings.rs:line_at:bytes[end..] (split_off_front_matter starts line_at
    at 0 and then at the `next` of the line before, which is inside the string). *)
 From V Require Proofs.BlocksTotal5Only.
+(* sixth round: required HERE, not next to its theorems at the end of the file, because coqdep stops seeing `Require`
+   after the string "..peek_char_n:assert!(" + "*c > 0)" of the list below (it takes the two characters for a comment
+   opener), and the build would lose the dependency of this file on the files of the sixth round *)
+From V Require Proofs.BlocksTotal6Row Proofs.BlocksTotal6Pos Proofs.BlocksTotal6Val Proofs.BlocksTotal6ValWalk Proofs.BlocksTotal6.
 
 Theorem Blocks_total_remaining_sites_list :
   BlocksTotal5Only.rem_sites =
@@ -1051,14 +1055,17 @@ Print Assumptions Blocks_total_partial_ok_or_remaining.
        header_row.paragraph_offset                     what `row` ANSWERS (Proofs/BlocksTotal6Row.v, pinned below):
                                                        paragraph_offset <= |string|, <= start_offset and <= end_offset
                                                        of every cell — for every byte string
-   Ok-path invariant 2 (Proofs/BlocksTotal6Val.v, pinned below as Blocks_total_partial_stored_values): every HtmlBlock
-   of the tree has block type 1..7, every Paragraph has a NUL-free content and at least as many line_offsets as its
-   content has LF bytes — through every function of the block phase, for every input (the lines are NUL-free and have
-   one LF: FeedProofs.lines_clean).  It is what excludes parse_html_block_prefix:unreachable!(), peek_char_n and
-   line_offsets[n]; the `but` walk that uses it (a copy of BlocksTotal6Pos.v with QI for PIL; the functions between
-   peek and finalize need the premise `nonul content`) is NOT done: the three sites stay in the list.
-   RESULT: parse_blocks o x is Ok or a Panic at one of the 26 sites of rem_sites6. *)
-From V Require Proofs.BlocksTotal6Row Proofs.BlocksTotal6Pos Proofs.BlocksTotal6Val Proofs.BlocksTotal6.
+   Walk 2 (Proofs/BlocksTotal6ValWalk.v, `but val_sites`): FOUR more sites, same scheme, with the Ok-path invariant of
+   Proofs/BlocksTotal6Val.v (pinned below as Blocks_total_partial_stored_values): every HtmlBlock of the tree has block
+   type 1..7 (what the two opener scanners answer; finalize keeps it), every Paragraph has a NUL-free content and at
+   least as many line_offsets as its content has LF bytes — through every function of the block phase, for every input
+   (the lines are NUL-free and have one LF: FeedProofs.lines_clean).
+     mod.rs:parse_html_block_prefix:unreachable!()     block type 1..7
+     inlines.rs:peek_char_n (the assert c > 0)         parse_reference_inline runs on the content of a Paragraph
+     table.rs:try_inserting_..:line_offsets[n]         newlines of the preface <= LF bytes of the content <= |line_offsets|
+     strings.rs:chop_trailing_hashtags:line[n]         LOCAL (n = |line| - 1 - hashes and hashes < |line|)
+   RESULT: parse_blocks o x is Ok or a Panic at one of the 22 sites of rem_sites6. *)
+(* (the files of this round are required above, before Blocks_total_remaining_sites_list: see the note there) *)
 
 Theorem Blocks_total_remaining_sites_list6 :
   BlocksTotal6.rem_sites6 =
@@ -1078,16 +1085,12 @@ Theorem Blocks_total_remaining_sites_list6 :
     "strings.rs:split_off_front_matter:slice_from";
     "strings.rs:split_off_front_matter:slice_to";
     "strings.rs:line_at:slice";
-    "mod.rs:parse_html_block_prefix:unreachable!()";
     "mod.rs:finalize_borrowed:assert!(pos < content.len())";
     "mod.rs:finalize_borrowed:content.as_bytes()[pos]";
-    "table.rs:try_inserting_table_header_paragraph:container_ast.line_offsets[n]";
     "table.rs:try_opening_header:content.len() - 2";
     "table.rs:try_opening_header:content.len() - 2 - header_row.paragraph_offset";
-    "inlines.rs:peek_char_n:assert!(*c > 0)";
     "strings.rs:remove_trailing_blank_lines:line.len() - 1";
-    "strings.rs:chop_trailing_hashtags:line.len() - 1";
-    "strings.rs:chop_trailing_hashtags:line[n]" ].
+    "strings.rs:chop_trailing_hashtags:line.len() - 1" ].
 Proof. vm_compute. reflexivity. Qed.
 Print Assumptions Blocks_total_remaining_sites_list6.
 
@@ -1108,3 +1111,29 @@ Theorem Blocks_total_partial_stored_values : forall o x r,
   parse_blocks o x = Ok r -> BlocksPos.all_info BlocksTotal6Val.Qn (br_root r).
 Proof. exact BlocksTotal6Val.parse_blocks_val. Qed.
 Print Assumptions Blocks_total_partial_stored_values.
+
+(* ---- state after the sixth round.  PROVED for the whole parse_blocks, EVERY input byte string (valid UTF-8 or not),
+   EVERY option set: no OutOfFuel; any Panic is at one of the 22 sites of rem_sites6 (Blocks_total_remaining_sites_list6).
+   REMAINING for Blocks_total_full_statement = exactly rem_sites6:
+     open spine (3)   finalize_borrowed:assert!(ast.open), add_line:assert!(ast.open),
+                      add_text_to_container:self.finalize(self.current).unwrap(): spine_ok2 with P1 / P2 (fourth round).
+     W + kinds (1)    add_child:self.finalize(parent).unwrap(): see the comment of the fifth round (needs W and the kind of
+                      the node add_child has just created; NOT the spine).
+     UTF-8 (12)       unchanged (boundary invariant on valid UTF-8 input).
+     stored values (4 + 1)
+                      finalize_borrowed:assert!(pos < content.len()), content.as_bytes()[pos]: a fenced CodeBlock has a
+                      content with a line end once its opening line is added (window between add_child and add_line).
+                      try_opening_header:content.len() - 2 [- paragraph_offset]: the content of a Paragraph ends with LF
+                      and, when `row` answers Some (po, cells), po + 2 <= |content| (one more fact about `row`, next to
+                      Blocks_total_partial_row_answers: after a row end at least one cell byte and the final LF follow).
+                      remove_trailing_blank_lines: front matter not empty (local), indented code content not empty.
+     chop_trailing_hashtags:line.len() - 1 (1)   the ATX line contains its #; needs the cursor invariant F0 at
+                      add_text_to_container and `container is an ATX heading -> opened by this line`.
+   HOW the two walks of this round are made (cheap; reuse for the clauses above): an Ok-path invariant
+   `f .. = Ok (.., st') -> Inv st -> Inv st'` for every function (Proofs/BlocksPos.v, Proofs/BlocksTotal6Val.v: the
+   generic lemmas about all_info are shared; a new clause about val / content / line_offsets costs a few lines in
+   finalize, add_line, handle_setext_heading and the table functions), then a copy of Proofs/BlocksTotal6ValWalk.v with
+   the new list: only the functions that contain a site of the list change.  Make the state invariant an Inductive
+   (QI), not a Definition: with a Definition `apply QI_st_refmap` unifies with every goal and loops.
+   NOTE for the build: coqdep does not see any `Require` placed after Blocks_total_remaining_sites_list (the string of
+   the peek_char_n site contains the two characters of a comment opener); new files must be required before it. *)
